@@ -149,6 +149,14 @@ func genC16(g *Gen) {
 	for i := 0; i < g.scale(1500, 60000); i++ {
 		g.add("jsreq " + genJSRequestArgs(g.r, i%3 != 0))
 	}
+	// HomeNSReq, and bodies the handler cannot dispatch
+	for i := 0; i < g.scale(150, 5000); i++ {
+		g.addf("jshome %d %s %s s%s s%s %d", b2i(!g.r.Chance(1, 4)), hx(g.r.Bytes(8)), hx(g.r.Bytes(3)), fmt.Sprintf("%x", g.r.Bytes(3)), fmt.Sprintf("%x", g.r.Bytes(8)), g.r.U32())
+	}
+	for _, t := range []string{"", "{", "null", "[]", "{}", `{"MessageType":"JoinAns"}`, `{"MessageType":"XmitDataReq"}`, `{"MessageType":5}`, `{"MessageType":"JoinReq","PHYPayload":"zz"}`,
+		`{"MessageType":"RejoinReq","DevEUI":"01"}`, `{"MessageType":"HomeNSReq","DevEUI":"0102030405060708zz"}`, `{"MessageType":"JoinReq","TransactionID":-1}`} {
+		g.add("jsraw " + hexOfText(t))
+	}
 	// concurrent batches through one handler
 	for i := 0; i < g.scale(20, 400); i++ {
 		n := 2 + g.r.Intn(7)
